@@ -37,7 +37,7 @@ def sym(name):
     return sympy.Symbol(name)
 
 
-FUNCS = {"cos", "sin", "sqrt", "exp", "tan", "log"}
+FUNCS = {"cos", "sin", "sqrt", "exp", "tan", "log", "acos", "asin", "atan", "atan2", "sinh", "cosh", "tanh", "Abs", "sign"}
 _IDENT = re.compile(r"(?<![\w.])[A-Za-z_]\w*(?:\[[0-9]+\])?")
 
 
@@ -208,7 +208,10 @@ def rand_numeric_param(r, rich=False):
 
 
 SYM_EXPRS = ["{s}", "2*{s}", "{s}/2", "{s}+1", "-{s}", "{s}+{t}", "{s}*{t}", "{s}-{t}/3", "{s}**2", "0.5*{s}+0.25",
-             "pi*{s}", "{s}+pi/2", "cos({s})", "sqrt({s}**2+1)"]
+             "pi*{s}", "{s}+pi/2", "cos({s})", "sqrt({s}**2+1)",
+             # the rest of the elementary functions an angle is commonly computed with
+             "2*acos({s}/4)", "asin({s}/5)", "atan({s})", "atan2({s}, 2)", "sinh({s}/2)", "cosh({t}/2)-1", "tanh({s})", "exp({s}/3)",
+             "log({s}**2+1)", "Abs({s})"]
 
 
 def rand_symbolic_param(r, symbols):
